@@ -1,0 +1,178 @@
+//go:build verif
+
+package disk
+
+import (
+	"os"
+	"strconv"
+	"strings"
+	"sync"
+	"sync/atomic"
+	"syscall"
+	"time"
+)
+
+// Verification-only instrumentation (build tag "verif"). Nothing in this
+// file is compiled into normal builds.
+
+type verifHookFn func(point string, key string, n int64)
+
+var verifHook atomic.Pointer[verifHookFn]
+
+// VerifSetHook installs (or clears, with nil) the callback invoked at each
+// verifPoint call site.
+func VerifSetHook(fn func(point string, key string, n int64)) {
+	if fn == nil {
+		verifHook.Store(nil)
+		return
+	}
+	f := verifHookFn(fn)
+	verifHook.Store(&f)
+}
+
+func verifPoint(point string, key string, n int64) {
+	if p := verifHook.Load(); p != nil {
+		(*p)(point, key, n)
+	}
+}
+
+// VerifEntry describes one indexed item.
+type VerifEntry struct {
+	Key        string
+	Size       int64
+	SizeOnDisk int64
+	Random     string
+	Legacy     bool
+	Path       string // relative to the cache dir
+}
+
+// VerifSnap is a consistent copy of the index and its counters, taken
+// while holding the cache mutex.
+type VerifSnap struct {
+	Dir              string
+	Entries          []VerifEntry // front (most recently used) to back
+	MapLen           int
+	CurrentSize      int64
+	ReservedSize     int64
+	UncompressedSize int64
+	QueuedEvictions  int64
+	MaxSize          int64
+	MaxSizeHardLimit int64
+}
+
+func verifUnwrap(c Cache) *diskCache {
+	switch v := c.(type) {
+	case *diskCache:
+		return v
+	case *metricsDecorator:
+		return v.diskCache
+	}
+	return nil
+}
+
+// VerifSnapshot returns a snapshot of the index of c.
+func VerifSnapshot(c Cache) (VerifSnap, bool) {
+	dc := verifUnwrap(c)
+	if dc == nil {
+		return VerifSnap{}, false
+	}
+
+	dc.mu.Lock()
+	defer dc.mu.Unlock()
+
+	s := VerifSnap{
+		Dir:              dc.dir,
+		MapLen:           len(dc.lru.cache),
+		CurrentSize:      dc.lru.currentSize,
+		ReservedSize:     dc.lru.reservedSize,
+		UncompressedSize: dc.lru.uncompressedSize,
+		QueuedEvictions:  dc.lru.queuedEvictionsSize.Load(),
+		MaxSize:          dc.lru.maxSize,
+		MaxSizeHardLimit: dc.lru.maxSizeHardLimit,
+		Entries:          make([]VerifEntry, 0, dc.lru.ll.Len()),
+	}
+	for e := dc.lru.ll.Front(); e != nil; e = e.Next() {
+		kv := e.Value.(*entry)
+		p := dc.getElementPath(kv.key, kv.value)
+		s.Entries = append(s.Entries, VerifEntry{
+			Key:        kv.key,
+			Size:       kv.value.size,
+			SizeOnDisk: kv.value.sizeOnDisk,
+			Random:     kv.value.random,
+			Legacy:     kv.value.legacy,
+			Path:       strings.TrimPrefix(strings.TrimPrefix(p, dc.dir), "/"),
+		})
+	}
+	return s, true
+}
+
+// VerifQueuedEvictions returns the number of bytes evicted from the index
+// but not yet removed from the file system (no lock needed).
+func VerifQueuedEvictions(c Cache) int64 {
+	dc := verifUnwrap(c)
+	if dc == nil {
+		return -1
+	}
+	return dc.lru.queuedEvictionsSize.Load()
+}
+
+// Child processes configure hook actions through the VERIF_HOOKS
+// environment variable: a comma separated list of
+//
+//	point=sleep:<ms> | point=kill:<nth hit> | point=gatefile:<path>
+//
+// "gatefile" blocks at the point for as long as the file exists.
+func init() {
+	spec := os.Getenv("VERIF_HOOKS")
+	if spec == "" {
+		return
+	}
+	type action struct {
+		kind string
+		arg  string
+		n    int64
+	}
+	actions := map[string][]action{}
+	for _, item := range strings.Split(spec, ",") {
+		kv := strings.SplitN(item, "=", 2)
+		if len(kv) != 2 {
+			continue
+		}
+		ka := strings.SplitN(kv[1], ":", 2)
+		if len(ka) != 2 {
+			continue
+		}
+		n, _ := strconv.ParseInt(ka[1], 10, 64)
+		actions[kv[0]] = append(actions[kv[0]], action{kind: ka[0], arg: ka[1], n: n})
+	}
+	var mu sync.Mutex
+	hits := map[string]int64{}
+	VerifSetHook(func(point string, key string, n int64) {
+		as := actions[point]
+		if len(as) == 0 {
+			return
+		}
+		mu.Lock()
+		hits[point]++
+		h := hits[point]
+		mu.Unlock()
+		for _, a := range as {
+			switch a.kind {
+			case "sleep":
+				time.Sleep(time.Duration(a.n) * time.Millisecond)
+			case "kill":
+				if h == a.n {
+					_ = syscall.Kill(os.Getpid(), syscall.SIGKILL)
+					time.Sleep(time.Hour)
+				}
+			case "gatefile":
+				for {
+					if _, err := os.Stat(a.arg); err != nil {
+						break
+					}
+					time.Sleep(2 * time.Millisecond)
+				}
+			}
+		}
+	})
+}
